@@ -55,6 +55,10 @@ def configs(tier):
         cfgs.append({"name": f"tally-{alg}-{motif}-{d}", "kind": "tally", "alg": alg, "motif": motif, "N": len(d), "D": max(max(r) for r in d),
                      "d": d, "via": "direct"})
 
+    # very long stub lists (size thresholds that switch algorithms): only 'one full-length uniform primitive per column' is checked
+    for n in (6000, 60000):
+        cfgs.append({"name": f"long-fast-k2k3-N{n}", "kind": "long", "alg": "fast", "motif": "k2k3", "N": n, "via": "direct"})
+    cfgs.append({"name": "long-motifs-bare-N60000", "kind": "long", "alg": "motifs", "motif": "bare", "N": 60000, "via": "direct"})
     tally("fast", "k2", [[1], [1], [1], [1]])
     tally("motifs", "bare", [[1], [1], [1], [1]])
     tally("fast", "k2", [[2], [1], [1]])
@@ -126,9 +130,38 @@ def subst(x, mapping):
     return x
 
 
+def path_long(ctx, cfg):
+    """N vertices of joint degree 1 in every column: the generator must hand each column's full stub list to the uniform primitive once"""
+    from gcmpy.gcm_algorithm.gcm_algorithm_custom_motifs import GCMAlgorithmCustomMotifs
+    from gcmpy.gcm_algorithm.gcm_algorithm_fast import GCMAlgorithmFast
+    from gcmpy.names.gcm_algorithm_names import GCMAlgorithmNames
+
+    spec = gc.motif_spec(cfg["motif"])
+    N = cfg["N"]
+    K = len(spec["sizes"])
+    params = {GCMAlgorithmNames.MOTIF_SIZES: list(spec["sizes"]), GCMAlgorithmNames.BUILD_FUNCTIONS: list(spec["builds"]),
+              GCMAlgorithmNames.EDGE_NAMES: list(spec["names"])}
+    if spec["kind"] == "custom":
+        params[GCMAlgorithmNames.MOTIF_INDICES] = [list(i) for i in spec["indices"]]
+    gen = (GCMAlgorithmCustomMotifs if cfg["alg"] == "motifs" else GCMAlgorithmFast)(params)
+    ctx.shuffle_concrete = lambda c, orig, rec: list(range(len(orig) - 1, -1, -1))  # any fixed order: only the call is observed
+    jds = [tuple([1] * K) for _ in range(N)]
+    ctx.guard("generator-raised", gen.random_clustered_graph, jds)
+    recs = [r for r in ctx.rng_log if r["fn"] in ("shuffle", "sample") and r["n"] == N]
+    other = [r["fn"] for r in ctx.rng_log if r["fn"] not in ("shuffle", "sample")]
+    if other:
+        ctx.note("undecided: generator draws through RNG primitives other than shuffle/sample")
+        return
+    ok = len(recs) == K and all(sorted(r["orig"]) == list(range(N)) for r in recs)
+    ctx.require(ok, "uniform-primitive-per-column", f"{cfg['alg']}/{cfg['motif']} with {N} stubs per column: {len(recs)} full-length shuffles for {K} columns "
+                f"(rng calls: {[(r['fn'], r['n']) for r in ctx.rng_log][:6]})", sig="uniform-primitive-per-column:long-list")
+
+
 def path(ctx, cfg):
     if cfg["kind"] == "tally":
         return path_tally(ctx, cfg)
+    if cfg["kind"] == "long":
+        return path_long(ctx, cfg)
     r = ctx.guard("generator-raised", gc.run_generator, ctx, cfg)
     desc = f"{cfg['alg']}/{cfg['motif']} jds={r.d}"
     K = len(r.spec["sizes"])
